@@ -37,7 +37,7 @@ CatChoiceSeq == <<
   [catKind |-> "date", cats |-> <<Leaf("d:1899-12-31"), Leaf("d:1900-01-01"), Leaf("d:1900-02-28"), Leaf("d:1900-03-01"), Leaf("d:2024-12-31")>>],
   [catKind |-> "str",  cats |-> <<Leaf("s:plain:1"), Leaf("s:empty:0")>>],
   [catKind |-> "str",  cats |-> <<Node("s:plain:10", <<Leaf("s:empty:0"), Leaf("s:plain:12")>>)>>] >>
-LenSeqSeq == << <<>>, <<0>>, <<2>>, <<1, 3>>, <<3, 0, 2>>, <<2, 2, 2>>, <<1>>, <<0, 0>> >>
+LenSeqSeq == << <<>>, <<0>>, <<2>>, <<1, 3>>, <<3, 0, 2>>, <<2, 2, 2>>, <<1>>, <<0, 0>>, <<1, 1, 1, 1, 1, 1, 1, 1, 1, 1, 1, 2>> >>     \* the last: twelve series
 
 \* ---- the shape table: every history refers to shapes by index
 CatShapeSeq == SetToSeq({CatShape(CatChoiceSeq[c], n, (c + n) % 4, IF (c + n) % 5 = 0 THEN "short" ELSE IF (c + n) % 7 = 0 THEN "empty" ELSE "full",
